@@ -13,14 +13,21 @@
   stripe, scheduled in ANY way the lock table admits at the granularity of single backend
   requests — every finished command returned and emitted what it does when the commands run whole,
   one after another, in the order of their lock acquisitions (`C03_serializable`), and that
-  sequential run is answered as the single map answers it (C01) — `C03_linearizable`.
-  Not covered by (5): gets holding a shared read lock in multi-reader mode (two gets of one key may
-  then interleave their L1 back-fills); the correspondence explores every admitted interleaving
-  of small programs in both modes and checks linearizability of each history.
+  sequential run is answered as the single map answers it (C01) — `C03_linearizable`;
+  (6) with SHARED read locks for gets (multi-reader mode, memproxy's default), where two gets of
+  one key may interleave their L1 back-fills and the run need not equal a sequential run of the
+  implementation request by request: every admitted schedule is still answered, command by
+  command, as the single map answers the commands in lock-acquisition order, and L2 is that map
+  at the end (`C03_linearizable_shared_reads`; a get, answered at each of its requests from ANY
+  state its key can be in during a read phase, keeps the key in that class and returns L2's
+  value: `Proofs/ReaderStable.lean`, `ReaderGet.lean`, `SerialMR.lean`).
+  The correspondence explores every admitted interleaving of small programs in both modes and
+  checks linearizability of each history.
 -/
 import Rend.Props.C12
 import Rend.Props.C14
 import Rend.Proofs.KeyLocal
+import Rend.Proofs.SerialMR
 
 namespace Rend.Props.C03
 open Rend
@@ -212,6 +219,39 @@ theorem C03_linearizable (now bits : Nat) (ports : Nat → Port) (cmds : Nat →
   refine ⟨_, b, r1, ?_, ?_⟩
   · rw [a]; exact r2
   · rw [a]; exact r3
+
+/-- **Linearizability, both lock modes** (`reads i = true`: connection `i` is a single-key get
+    holding the SHARED read lock of its key — multi-reader mode, memproxy's default; every other
+    command, and every get in single-reader mode, holds its stripe exclusively).  Any number of
+    connections on both ports, any schedule the lock table admits at the granularity of single
+    backend requests, ending with nobody inside a critical section: the commands, listed in the
+    order of their lock acquisitions, returned and emitted what the single map answers when they
+    are applied in that order; at the end L2 is that map and the cache invariant holds. -/
+theorem C03_linearizable_shared_reads (now bits : Nat) (ports : Nat → Port) (cmds : Nat → Cmd) (keys : Nat → Bytes)
+    (reads : Nat → Bool) (hk : ∀ i, cmdKey (cmds i) = some (keys i)) (htt : ∀ i, TwoTier (cmds i))
+    (hrd : ∀ i, reads i = true → ∃ g gk, cmds i = .get g ∧ g.keys = [gk])
+    (w : World) (hinv : CacheInv now w) (sched : List Conc.Step) (c' : Conc.Conf (HRes Unit))
+    (hex : Conc.ExecR now (fun i => { port := ports i, cmd := cmds i, key := keys i, stripe := stripeOf bits (keys i), read := reads i })
+      (Conc.Conf.init w) sched c')
+    (hquiet : ∀ i p evs, c'.ts i ≠ .running p evs) :
+    ∃ obs : List (HRes Unit × List OEv),
+      (Conc.acqOrder sched).map c'.ts = obs.map (fun o => Conc.TState.done o.1 o.2) ∧
+      AllAgree obs (specActs now w.l2 (actsOf ports cmds (Conc.acqOrder sched))) ∧
+      c'.w.l2 = specEnd now w.l2 (actsOf ports cmds (Conc.acqOrder sched)) ∧
+      CacheInv now c'.w :=
+  Conc.linearizable_mr now _ ⟨hk, htt, hrd, fun i j h => by simp only at h ⊢; rw [h]⟩ w hinv sched c' hex hquiet
+
+/-- Non-vacuity: two gets of one key under shared read locks may both be inside their critical
+    sections (admitted), a set may not join them. -/
+example : ∀ c1, Conc.StepR 100 (fun i => { port := .main, cmd := .get { keys := [{ key := [97] }] }, key := [97], stripe := stripeOf 3 [97], read := true })
+      (Conc.Conf.init {}) (.acq 0) c1 →
+    ∃ c2, Conc.StepR 100 (fun i => { port := .main, cmd := .get { keys := [{ key := [97] }] }, key := [97], stripe := stripeOf 3 [97], read := true }) c1 (.acq 1) c2 := by
+  intro c1 h1
+  cases h1 with
+  | acq _ _ _ =>
+    refine ⟨_, Conc.StepR.acq _ 1 ?_ ?_⟩
+    · rw [Conc.set_other _ _ _ _ (by decide)]; rfl
+    · intro j p evs _ _; exact ⟨rfl, rfl⟩
 
 /-- Non-vacuity of the reduction: two connections, `set a` and `delete a` on the main port; the
     schedule in which the second one has to wait is admitted, and one in which it enters the
